@@ -50,6 +50,59 @@ def _is_sock_name(func, e):
 def run(repo, chk):
     _run(repo, chk)
     rule_g(repo, chk)
+    rule_client_pairing(repo, chk)
+    rule_upgrade(repo, chk)
+
+
+def rule_upgrade(repo, chk):
+    """STARTTLS: observers have seen `connect` for the connection; the upgrade takes the socket out of the client list for the handshake.  When the handshake fails the
+    connection must still end in one `disconnect` and leave nothing behind."""
+    chk.rule('C12.i', 'a failed STARTTLS handshake ends the connection like any other failure: the failure path reaches the disconnect of _close (the socket it passes is '
+                      'still a client) or fires disconnect itself, and the upgrade record is dropped')
+    st = repo.func(SOCKETS, 'Server.starttls')
+    chk.touch(st)
+    he = repo.func(SOCKETS, 'Server._on_handshake_error')
+    chk.touch(he)
+    g = st.cfg()
+    sk = st.params[1]
+    removed = [n for n in g.nodes if n.kind == 'stmt' and any(r == 'self._clients' and [src(a) for a in c.args] == [sk] for r, c in pat.method_calls(n.ast, 'remove'))]
+    shakes = [n for n in g.nodes if n.ast is not None and n.kind in ('stmt', 'iter', 'for') and any((call_name(c) or '').endswith('_do_handshake') for c in pat.node_calls(n))]
+    need(shakes, 'C12.i: starttls never starts a handshake')
+    taken_out = any(Q.reaches(r_, s_) for r_ in removed for s_ in shakes)
+    own_disc = any(pat.fires(n, 'disconnect') for n in walk_no_defs(he.node) if isinstance(n, ast.stmt))
+    chk.ob('i', st.ref, 'when the handshake of an upgrade fails the connection still ends in a disconnect: the failure path goes through _close with a socket that is (still) '
+                        'in the client list, or fires disconnect itself', (not taken_out) or own_disc, loc(st, (removed or shakes)[0].ast),
+           detail='starttls takes the socket out of _clients before the handshake; _on_handshake_error calls _close(), which ignores sockets that are not clients',
+           discr='upgrade-failure-disconnects')
+
+
+def rule_client_pairing(repo, chk):
+    """Client components: one `disconnected` per `connected`.  TCPClient marks the transport connected before a TLS handshake and announces `connected` only when the
+    handshake is done: the failure callback of the handshake must not announce a `disconnected`."""
+    chk.rule('C12.h', 'a client whose TLS handshake fails was never announced by `connected`: the failure path tears the connection down without announcing `disconnected`')
+    f = repo.func(SOCKETS, 'TCPClient.connect')
+    chk.touch(f)
+    cl = repo.func(SOCKETS, 'Client._close')
+    chk.touch(cl)
+    gc = cl.cfg()
+    disc = [n for n in gc.nodes if n.kind == 'stmt' and pat.fires(n.ast, 'disconnected')]
+    need(disc, 'C12.h: Client._close never fires disconnected')
+    # the condition under which _close announces: a parameter (keyword) tested on the way to the fire
+    quiet_params = [p_ for p_ in cl.params[1:] if all(pat.guarded_by(gc, d, pat.test_edge(lambda tt, pol, p_=p_: pol == 'T' and src(tt) == p_)) is None for d in disc)]
+    n_err = 0
+    for name, h in f.nested.items():
+        # the failure callbacks handed to do_handshake: closures that fire `error`
+        if not any(pat.fires(n, 'error') for n in walk_no_defs(h.node) if isinstance(n, ast.stmt)):
+            continue
+        closes = [c for r, c in pat.method_calls(h.node, '_close') if r == 'self']
+        connected_before = any(pat.fires(n, 'connected') for n in walk_no_defs(h.node) if isinstance(n, ast.stmt))
+        for c in closes:
+            n_err += 1
+            quiet = any(k.arg in quiet_params and pat.is_const(k.value, False) for k in c.keywords) or \
+                (quiet_params and c.args and cl.params[1:2] == quiet_params[:1] and pat.is_const(c.args[0], False))
+            chk.ob('h', h.ref, 'the handshake failure path closes without announcing `disconnected` (no `connected` was announced for this connection)', bool(quiet) or connected_before,
+                   loc(h, c), detail=f'`{src(c)}`; parameters of _close that switch the announcement off: {quiet_params}', discr='failed-handshake-quiet')
+    need(n_err >= 1, 'C12.h: TCPClient.connect has no handshake failure path that closes')
 
 
 def _run(repo, chk):
